@@ -62,7 +62,20 @@ impl Primitive {
         match self {
             Primitive::Null => write!(out, "null")?,
             Primitive::Integer(i) => write!(out, "{}", i)?,
-            Primitive::Number(n) => write!(out, "{}", n)?,
+            Primitive::Number(n) => {
+                if n.fract() == 0.0 && n.abs() < 2147483648.0 {
+                    // an integral value is written exactly: it reads back as an integer of the same value
+                    write!(out, "{}", *n as i64)?
+                } else {
+                    // `{}` pads the shortest digits with zeros ("2147483600" for 2^31); such a text only
+                    // denotes the same value when it is read as a real, so keep it one
+                    let s = format!("{}", n);
+                    out.write_all(s.as_bytes())?;
+                    if n.is_finite() && !s.contains('.') {
+                        write!(out, ".")?;
+                    }
+                }
+            }
             Primitive::Boolean(b) => write!(out, "{}", b)?,
             Primitive::String(ref s) => s.serialize(out)?,
             Primitive::Stream(ref s) => s.serialize(out)?,
